@@ -28,3 +28,19 @@ ENTRY = {
         "pre-merge (phase0/altair) signed proposals have no Slot accessor in the pinned go-eth2-client fork: both doors reject them (modelled as an accessor error)",
     ],
 }
+
+# signing-input model (eth2util/signing, eth2wrap exit-domain rule, go-eth2-client Domain): what the symbolic
+# `verify` of the admission model stands for (Props/C10Signing.lean)
+from vlib import snippet_C10signing as _sg
+ENTRY["streams"].append(_sg.STREAM)
+ENTRY.setdefault("lean_props_extra", []).append(_sg.EXTRA_LEAN)
+ENTRY["monitor_sigs"] = ENTRY["monitor_sigs"] + _sg.MONITOR_SIGS
+ENTRY["trusted_base"] = ENTRY["trusted_base"] + _sg.TRUSTED_BASE
+ENTRY["assumptions"] = ENTRY["assumptions"] + _sg.ASSUMPTIONS
+ENTRY["level_text"] += (" The signing input itself is modelled bit-exactly (Model/Signing.lean over the core-Lean SHA-256): "
+    "GetDomain / GetDataRoot incl. the builder genesis-domain and the EIP-7044 exit-domain rules and go-eth2-client's fork choice; "
+    "Props/C10Signing.lean proves for every compression function that the domain's first four bytes are its type (domain_separation), "
+    "that forkAtEpoch picks the last fork not after the epoch on sorted schedules (fork_version_monotone_choice) and that any change of "
+    "object root, domain type, fork version or genesis root changes the signing root or exhibits an explicit (possibly 224-bit truncated) "
+    "SHA-256 collision (data_root_binds, signing_root_binds_fork); tied by stream signing (real functions over the beacon mock and the "
+    "production http adapter, compared bit for bit).")
